@@ -24,5 +24,5 @@ CFG = {
      "known finding still-canvas (SetCanvasSize != picture size on a still image) makes the full statement false for the current code (C14_current_still_canvas_refuted); kept because mux_test.go pins the acceptance.",
    ],
    "trusted_base": ["modelled, not verified: mux/mux.go (all setters, AddFrame, isAnimated, needsVP8X, hasAlphaChunk, validate, canvasSize, frameDimensions, splitAlphaAndBitstream, hasAlpha, detectBitstreamType, chunkTotalSize, frameSubChunksSize, writeDataChunk, putLE24, assembleSimple, assembleExtended, writeANMFChunk), mux/demux.go, mux/chunk.go"],
-   "assumptions": ["Go int is 64-bit two's complement (wrap64); every blob shorter than 2^31 bytes"],
+   "assumptions": ["Go int is 64-bit two's complement (wrap64); every blob shorter than 2^30 bytes"],
  }
